@@ -238,6 +238,14 @@ def make_result(rng, feats):
         b = RDMs(gen.rdm_vectors(rng, 1 if k == 'fixed' else 3, n_cond, 'pos'))
         models.append({'fixed': ModelFixed, 'weighted': ModelWeighted, 'select': ModelSelect}[k](f'm{i}', b))
     theta = [None if k == 'fixed' else (1 if k == 'select' else np.array([.2, .3, .5])) for k in kinds]
+    if 'many_models' not in feats and all(k == 'fixed' for k in kinds) and rng.integers(2):
+        # a result with a stack of three covariances (RDM, condition and joint bootstrap) whose correction depends on
+        # the number of RDMs AND the number of conditions -- which differ
+        from rsatoolbox.inference import eval_dual_bootstrap
+        n_r = n_cond + int(rng.integers(2, 5))
+        data = RDMs(gen.rdm_vectors(rng, n_r, n_cond, 'pos'))
+        np.random.seed(int(rng.integers(2 ** 31)))
+        return eval_dual_bootstrap(models, data, method='cosine', N=8, k_pattern=1, k_rdm=1)
     return eval_fixed(models, data, theta=theta, method=gen.pick(rng, ['cosine', 'corr']))
 
 
